@@ -362,8 +362,20 @@ proof fn lemma_val_set0(s0: Seq<Limb>, s1: Seq<Limb>, n: nat)
 {
     lemma_tv_ext(s0, s1, 1, n);
     lemma_bp1();
-    assert(val(s0, 1) == val(s0, 0) + s0[0].0 as int * bp(0));
-    assert(val(s1, 1) == val(s1, 0) + s1[0].0 as int * bp(0));
+    lemma_val_step(s0, 0); lemma_val_step(s1, 0);
+    let a0 = s0[0].0 as int; let a1 = s1[0].0 as int; let one = bp(0);
+    assert(a0 * one == a0 && a1 * one == a1) by (nonlinear_arith) requires one == 1;
+    assert(val(s0, 0) == 0 && val(s1, 0) == 0);
+    assert(val(s0, 1) == a0);
+    assert(val(s1, 1) == a1);
+    assert(tv(s0, 1, n) == tv(s1, 1, n));
+}
+
+proof fn lemma_tv_empty_mul(q: Seq<Limb>, n: nat, dn: int)
+    ensures tv(q, n, n) * dn == 0
+{
+    let t = tv(q, n, n);
+    assert(t * dn == 0) by (nonlinear_arith) requires t == 0;
 }
 
 /// or-ing the bits shifted out of the low half into limb 0 of the shifted high half is an addition
@@ -414,6 +426,16 @@ proof fn lemma_wide_combine(lv: int, hv: int, lov: int, hsv: int, c: int, xhi: i
     assert((qa * dn + r1) * bl == (qa * bl) * dn + r1 * bl) by (nonlinear_arith);
     assert((hsv + c + xhi * bl) * bl == hsv * bl + c * bl + (xhi * bl) * bl) by (nonlinear_arith);
     assert((qa * bl + qb) * dn == (qa * bl) * dn + qb * dn) by (nonlinear_arith);
+}
+
+/// value of a two-limb sequence
+proof fn lemma_val2(s: Seq<Limb>)
+    ensures val(s, 2) == s[1].0 as int * B() + s[0].0 as int
+{
+    lemma_val_step(s, 1); lemma_val_step(s, 0); lemma_bp1();
+    let a0 = s[0].0 as int; let one = bp(0);
+    assert(a0 * one == a0) by (nonlinear_arith) requires one == 1;
+    assert(val(s, 0) == 0);
 }
 
 //@@ subst \b(Self|Uint)::(ZERO|ONE|MAX|BITS|LOG2_BITS)\b(?!\() => \1::\2()
@@ -622,7 +644,7 @@ pub const fn div3by2(
             quo as int >= min_int(B() - 1, qq),
         decreases 2 - i
 //@-
-    {
+{
 //@+
         proof { lemma_mul_u64_bound(quo, v0); }
 //@-
@@ -671,7 +693,7 @@ pub const fn div_rem_limb_with_reciprocal<const L: usize>(
         lemma_val_bound(u.limbs@, L as nat); lemma_val_bound(u_shifted.limbs@, L as nat);
         lemma_pow2_pos(reciprocal.shift as nat);
         lemma_divlimb_init(u_shifted.v(), u_hi.0 as int, u.v(), ps, reciprocal.dv(), L as nat);
-        assert(tv(q@, L as nat, L as nat) * dn == 0);
+        lemma_tv_empty_mul(q@, L as nat, dn);
     }
 //@-
     let mut j = L;
@@ -682,7 +704,7 @@ pub const fn div_rem_limb_with_reciprocal<const L: usize>(
             tv(q@, j as nat, L as nat) * dn + r as int * bp(j as nat) + val(u_shifted.limbs@, j as nat) == total,
         decreases j
 //@-
-    {
+{
         j -= 1;
         let (qj, rj) = div2by1(r, u_shifted.as_limbs()[j].0, reciprocal);
 //@+
@@ -725,7 +747,7 @@ pub const fn rem_limb_with_reciprocal<const L: usize>(
         lemma_val_bound(u.limbs@, L as nat); lemma_val_bound(u_shifted.limbs@, L as nat);
         lemma_pow2_pos(reciprocal.shift as nat);
         lemma_divlimb_init(u_shifted.v(), u_hi.0 as int, u.v(), ps, reciprocal.dv(), L as nat);
-        assert(tv(q, L as nat, L as nat) * dn == 0);
+        lemma_tv_empty_mul(q, L as nat, dn);
     }
 //@-
     let mut j = L;
@@ -737,7 +759,7 @@ pub const fn rem_limb_with_reciprocal<const L: usize>(
             tv(q, j as nat, L as nat) * dn + r as int * bp(j as nat) + val(u_shifted.limbs@, j as nat) == total,
         decreases j
 //@-
-    {
+{
         j -= 1;
 //@+
         let ghost r_old = r;
@@ -798,7 +820,7 @@ pub const fn rem_limb_with_reciprocal_wide<const L: usize>(
     let ghost mut q1: Seq<Limb> = Seq::new(L as nat, |k: int| Limb(0));
     proof {
         lemma_val_set0(hs0, hi_shifted.limbs@, L as nat);
-        assert(tv(q1, L as nat, L as nat) * dn == 0);
+        lemma_tv_empty_mul(q1, L as nat, dn);
     }
 //@-
     let mut r = xhi.0;
@@ -811,7 +833,7 @@ pub const fn rem_limb_with_reciprocal_wide<const L: usize>(
             tv(q1, j as nat, L as nat) * dn + r as int * bp(j as nat) + val(hi_shifted.limbs@, j as nat) == t1,
         decreases j
 //@-
-    {
+{
         j -= 1;
 //@+
         let ghost r_old = r;
@@ -835,7 +857,7 @@ pub const fn rem_limb_with_reciprocal_wide<const L: usize>(
     proof {
         lemma_bp1();
         assert(val(q1, L as nat) * dn + r1 == t1);
-        assert(tv(q2, L as nat, L as nat) * dn == 0);
+        lemma_tv_empty_mul(q2, L as nat, dn);
     }
 //@-
     j = L;
@@ -847,7 +869,7 @@ pub const fn rem_limb_with_reciprocal_wide<const L: usize>(
             tv(q2, j as nat, L as nat) * dn + r as int * bp(j as nat) + val(lo_shifted.limbs@, j as nat) == t2,
         decreases j
 //@-
-    {
+{
         j -= 1;
 //@+
         let ghost r_old = r;
@@ -877,15 +899,19 @@ pub const fn rem_limb_with_reciprocal_wide<const L: usize>(
     Limb(r >> reciprocal.shift)
 }
 //@@ end
-//@@ fn src/uint/div_limb.rs | - | mul_rem | stub | props C02 C11
-#[verifier::external_body]
+//@@ fn src/uint/div_limb.rs | - | mul_rem | body | props C02 C11
 pub const fn mul_rem(a: Limb, b: Limb, d: NonZero<Limb>) -> (ret__: Limb)
 //@+
     requires d.0.0 != 0
     ensures ret__.0 as int == (a.0 as int * b.0 as int) % (d.0.0 as int)
 //@-
 {
-    unimplemented!()
+    let rec = Reciprocal::new(d);
+    let (hi, lo) = mulhilo(a.0, b.0);
+//@+
+    assert forall|s: Seq<Limb>| s[0].0 == lo && s[1].0 == hi implies #[trigger] val(s, 2) == a.0 as int * b.0 as int by { lemma_val2(s); }
+//@-
+    rem_limb_with_reciprocal(&Uint::from_words([lo, hi]), &rec)
 }
 //@@ end
 //@@ fn src/uint/div.rs | impl<const LIMBS: usize> Uint<LIMBS> | div_rem_limb_with_reciprocal | body | props C02 C11 C15
